@@ -30,10 +30,10 @@ fn main() {
         let parts: Vec<&[u8]> = line.split(|&b| b == b'\t').collect();
         let arg = |i: usize| -> &Path { Path::new(OsStr::from_bytes(parts.get(i).copied().unwrap_or(b""))) };
         match parts[0] {
-            b"normpath" => {
-                let r = redo::normpath(arg(1));
-                out.write_all(r.as_os_str().as_bytes()).unwrap();
-            }
+            b"normpath" => match std::panic::catch_unwind(|| redo::normpath(arg(1)).into_owned()) {
+                Ok(r) => out.write_all(r.as_os_str().as_bytes()).unwrap(),
+                Err(_) => write!(out, "PANIC").unwrap(),
+            },
             b"relpath" => match std::panic::catch_unwind(|| redo::relpath(arg(1), arg(2))) {
                 Ok(Ok(r)) => out.write_all(r.as_os_str().as_bytes()).unwrap(),
                 Ok(Err(e)) => write!(out, "ERR {}", e).unwrap(),
@@ -44,21 +44,33 @@ fn main() {
                 out.write_all(r.as_os_str().as_bytes()).unwrap();
             }
             b"dofiles" => {
-                let mut first = true;
-                for df in redo::possible_do_files(arg(1)) {
-                    if !first {
-                        out.write_all(b"\t").unwrap();
+                // a panic of the code under test is an answer, not a failure of this helper
+                let r = std::panic::catch_unwind(|| {
+                    let mut buf: Vec<u8> = Vec::new();
+                    let mut first = true;
+                    for df in redo::possible_do_files(arg(1)) {
+                        if !first {
+                            buf.push(b'\t');
+                        }
+                        first = false;
+                        buf.extend_from_slice(df.do_dir().as_os_str().as_bytes());
+                        buf.push(b'|');
+                        buf.extend_from_slice(df.do_file().as_bytes());
                     }
-                    first = false;
-                    out.write_all(df.do_dir().as_os_str().as_bytes()).unwrap();
-                    out.write_all(b"|").unwrap();
-                    out.write_all(df.do_file().as_bytes()).unwrap();
+                    buf
+                });
+                match r {
+                    Ok(buf) => out.write_all(&buf).unwrap(),
+                    Err(_) => write!(out, "PANIC").unwrap(),
                 }
             }
             b"metaparse" => {
                 // Meta::parse on the raw bytes (lossy UTF-8: the alphabets used are ASCII)
                 let text = String::from_utf8_lossy(parts.get(1).copied().unwrap_or(b"")).into_owned();
-                match redo::logs::Meta::parse(&text) {
+                match std::panic::catch_unwind(|| redo::logs::Meta::parse(&text)).unwrap_or_else(|_| {
+                    write!(io::stderr(), "metaparse panicked\n").ok();
+                    redo::logs::Meta::parse("@@PANIC")
+                }) {
                     Ok(m) => {
                         write!(out, "OK\x1f{}\x1f{}\x1f{}\x1f{}", m.kind(), m.pid().as_raw(), m.timestamp(), m.text()).unwrap();
                         if let Some((rv, name)) = m.done_text() {
